@@ -740,6 +740,76 @@ def legacy_case(ctx, B, fn, data, cqm, rp):
           'loaded members, attributes and header check', rp)
 
 
+
+# ------------------------------------------------------------------ round 7: CQMs reached through histories
+
+def cqm_history_cases(ctx, r, n):
+    """CQMs that `set_objective` / `add_constraint` alone do not produce: expressions left WITHOUT variables but with a
+    non-zero offset (objective.offset assigned on a feasibility model; every objective variable fixed / removed), an
+    objective or a left-hand side whose variable keeps a zero bias, constraints whose lhs is reduced to a constant,
+    variables removed after constraints were added (indices shift), soft / discrete constraints after fixing.
+    Every writer option x loader entry point; property predicate only (the model files are covered by `cqm_case`)."""
+    for _ in range(n):
+        c = r.choice([0.5, -7.25, 5.0, 3.0])
+        steps = ["m = dimod.ConstrainedQuadraticModel()",
+                 "x, y, z = dimod.Binaries(['x', 'y', 'z'])",
+                 "i = dimod.Integer('i', lower_bound=-3, upper_bound=8)",
+                 "s = dimod.Spin('s')"]
+        how = r.choice(['offset assigned', 'all objective variables fixed', 'constant set_objective', 'zero-bias variable', 'mixed',
+                        'all objective variables fixed', 'offset assigned'])
+        if how == 'offset assigned':
+            steps += ["m.add_constraint(x + y == 1, label='pick one')", f"m.objective.offset = {c!r}"]
+        elif how == 'all objective variables fixed':
+            steps += [f"m.set_objective(2*x + {r.choice([1, -3])}*i + x*i + {c!r})", "m.add_constraint(y + z + s <= 2, label='c0')",
+                      "m.fix_variable('x', 1)", f"m.fix_variable('i', {r.choice([-3, 0, 8])})"]
+        elif how == 'constant set_objective':
+            steps += [f"m.set_objective(dimod.QuadraticModel() + {c!r})", "m.add_constraint(x + i >= 1, label=('t', 1))"]
+        elif how == 'zero-bias variable':
+            steps += [f"m.set_objective(0*x + {c!r})", "m.add_constraint(0*y + 0*z + i <= 3, label='zero')"]
+        else:
+            steps += [f"m.set_objective(x + y + {c!r})", "m.add_constraint(x + y + z == 1, label='d')",
+                      f"m.add_constraint(2*x - y <= 1, label='soft', weight={r.choice([0.5, 2.0])!r}, penalty='linear')",
+                      "m.fix_variable('x', 0)", "m.fix_variable('y', 1)"]
+        # optionally: a constraint whose lhs is reduced to a constant, and a variable removed from the model afterwards
+        if r.random() < .5:
+            steps += [f"m.add_constraint(z + {r.choice([1.5, -2.0])!r} <= 4, label='lhs-offset')"]
+            if r.random() < .5:
+                steps += ["m.fix_variable('z', 1)"]
+        if r.random() < .4:
+            steps += ["w = dimod.Binary('w')", "m.add_constraint(w + s >= 0, label='late')", "m.fix_variable('w', 0)"]
+        src = '\n'.join(steps) + '\n'
+        env = dict(dimod=dimod, np=np)
+        try:
+            exec(src, env)
+        except Exception as e:  # noqa -- a history dimod itself refuses is not a case
+            ctx.tick(f'cqm history refused: {type(e).__name__}')
+            continue
+        m = env['m']
+        empty_obj = m.objective.num_variables == 0
+        ctx.tick(f'cqm history: {how}' + (' (objective without variables, offset %s)' % ('non-zero' if m.objective.offset else 'zero') if empty_obj else ''))
+        for compress in (False, True):
+            for spool in (int(1e9), 0):
+                kw = f'compress={compress}, spool_size={spool}'
+                ctx.case(('cqm-history', src, kw), nontrivial=True)
+                data = m.to_file(compress=compress, spool_size=spool).read()
+                for name, (expr, fn) in LOADERS.items():
+                    if name not in ('from_file(bytes)', 'from_file(BytesIO)', 'fileview.load(bytes)', 'fileview.load(BytesIO)'):
+                        continue
+                    rp = (F.PRELUDE + F.SAME_SRC + src + f"data = m.to_file({kw}).read()\nnew = {expr.format(cls=F.CLS['cqm'])}\n"
+                          "d = diff_models('cqm', m, new)\nassert d is None, d\n")
+                    try:
+                        new = fn(dimod.ConstrainedQuadraticModel, data)
+                        d = F.diff_models('cqm', m, new)
+                    except Exception as e:  # noqa
+                        d = f'loading the file just written raised {type(e).__name__}: {e}'
+                    ctx.tick('property:ok' if d is None else 'property:DIFF')
+                    if d is not None:
+                        ic = ('cqm reached through a history: objective without variables and a non-zero offset' if empty_obj and m.objective.offset
+                              else f'cqm reached through a history: {how}')
+                        ctx.fail('property', 'ConstrainedQuadraticModel.to_file/from_file', ic,
+                                 f'{kw}, {name}: loaded model differs from the original: {d}', repro=rp, detail=dict(source=src))
+                        break
+
 # ------------------------------------------------------------------ driver
 
 def flush(ctx, B):
@@ -799,3 +869,4 @@ def run(ctx):
         B = Batch()
     dqm_long_vars_case(ctx, r, B)
     flush(ctx, B)
+    cqm_history_cases(ctx, r, ctx.scale(14, 200))
